@@ -1077,8 +1077,12 @@ def chk_lutvia(sc, rng, scratch):
         import pathlib
         E2 = sc.f(arg=pathlib.Path(path))
         E3 = sc.f(arg=load.load_lut(sc.L.name))
-        for nm, e in (("path str", E1), ("pathlib.Path", E2),
-                      ("(array, meta) from load_lut", E3)):
+        cands = [("path str", E1), ("pathlib.Path", E2),
+                 ("(array, meta) from load_lut", E3)]
+        if sc.L.name == "LE-2D-FEM-19":
+            cands.append(("deprecated alias FEM-2Daxis",
+                          sc.f(arg="FEM-2Daxis")))
+        for nm, e in cands:
             r = same(E0, e)
             if r:
                 return "built-in identifier vs %s: event %d: %r vs %r" % (
@@ -1172,12 +1176,54 @@ def chk_dataset(sc, rng, scratch):
     return None
 
 
+def chk_isoelastics(sc, rng):
+    """isoelasticity lines converted to the set-up (Isoelastics.get with
+    pixelation error added) and get_emodulus use the same scaling laws: the
+    ratio emodulus(line point) / emodulus of the line does not depend on the
+    set-up"""
+    if not sc.L.name:
+        return None
+    from dclab import isoelastics as iso
+    v = sc.med["v"] if sc.med["kind"] == "num" else 4.5
+    med = dict(kind="num", v=v)
+    inst = iso.get_default()
+    L = sc.L
+
+    def ratios(cw, fr, visc, px):
+        lines = inst.get(col1=L.feat, col2="deform", lut_identifier=L.name,
+                         channel_width=cw, flow_rate=fr, viscosity=visc,
+                         add_px_err=bool(px), px_um=px)
+        out = []
+        for ln in lines[::3]:
+            pts = ln[::7]
+            e = sc.f(x=pts[:, 0].copy(), d=pts[:, 1].copy(), cw=cw, fr=fr,
+                     px=px, med=dict(kind="num", v=visc))
+            out.append(np.atleast_1d(e) / pts[:, 2])
+        return np.concatenate(out)
+    r0 = ratios(L.cw, L.fr, L.visc, 0)
+    r1 = ratios(sc.cw, sc.fr, v, sc.px)
+    both = ~np.isnan(r0) & ~np.isnan(r1)
+    if both.sum() < 0.9 * r0.size:
+        return "isoelastics: only %d of %d line points are inside the LUT " \
+               "in both set-ups" % (both.sum(), r0.size)
+    r = same(r0[both], r1[both], 1e-8)
+    if r:
+        return ("isoelastic point %d: emodulus/line value is %r in the "
+                "LUT's own set-up but %r at channel width %r, flow rate %r, "
+                "viscosity %r, pixel size %r" % (r[0], r[1], r[2], sc.cw,
+                                                 sc.fr, v, sc.px))
+    if abs(np.median(r0[both]) - 1) > 0.05:
+        return "isoelastics: median emodulus/line value is %r" % float(
+            np.median(r0[both]))
+    return None
+
+
 CHECKS = {
     "reference": chk_reference, "batch": chk_batch,
     "scalar_vs_array": chk_scalar_vs_array,
     "proportional": chk_proportional, "rescale": chk_rescale,
     "px0": chk_px0, "nomutation": chk_nomutation, "lutvia": chk_lutvia,
-    "dataset": chk_dataset,
+    "dataset": chk_dataset, "isoelastics": chk_isoelastics,
 }
 NEED_SCRATCH = ("lutvia", "dataset")
 
@@ -1234,7 +1280,8 @@ def oracle_cases(run):
     for k in range(400 if th else 60):
         L = gen_user_lut(rng, dyadic=rng.random() < 0.3, nmax=60)
         for chk in names:
-            if rng.random() < 0.5 and chk not in ("reference", "batch"):
+            if chk == "isoelastics" or (
+                    rng.random() < 0.5 and chk not in ("reference", "batch")):
                 continue
             n = rng.choice([1, 2, 3, 7, 20, 60])
             case, kinds = gen_scenario(
@@ -1284,11 +1331,57 @@ def classify(case, fail):
     return None
 
 
+def check_triangulation(L, cw, route):
+    """oracle hypothesis on [tri]: the simplices qhull returns are
+    non-degenerate, cover the convex hull of the nodes without overlap (areas
+    add up to the hull area) and no node lies inside a triangle's
+    circumcircle (Delaunay; implies the vertex property). Returns a
+    description of the first violation or None."""
+    P, T, xm, dm, H = L.normalised(cw, route)
+    tri = T.simplices
+    a, b, c = P[tri[:, 0]], P[tri[:, 1]], P[tri[:, 2]]
+    ar = np.abs(cross2(a, b, c)) / 2
+    if not (ar > 0).all():
+        return "degenerate simplex"
+    hx, hy = H[:, 0], H[:, 1]
+    hull_area = 0.5 * abs(np.dot(hx, np.roll(hy, -1))
+                          - np.dot(hy, np.roll(hx, -1)))
+    if abs(ar.sum() - hull_area) > 1e-9 * hull_area:
+        return "simplices do not tile the hull: %r vs %r" % (ar.sum(),
+                                                            hull_area)
+    used = np.unique(tri)
+    if len(P) <= 80:
+        # empty circumcircle, all nodes against all simplices
+        for k in range(len(tri)):
+            A, B, C = a[k], b[k], c[k]
+            d = 2 * cross2(A, B, C)
+            ux = ((A @ A) * (B[1] - C[1]) + (B @ B) * (C[1] - A[1])
+                  + (C @ C) * (A[1] - B[1])) / d
+            uy = ((A @ A) * (C[0] - B[0]) + (B @ B) * (A[0] - C[0])
+                  + (C @ C) * (B[0] - A[0])) / d
+            r2 = (A[0] - ux) ** 2 + (A[1] - uy) ** 2
+            d2 = (P[:, 0] - ux) ** 2 + (P[:, 1] - uy) ** 2
+            if (d2 < r2 * (1 - 1e-9)).any():
+                return "a node lies inside the circumcircle of simplex %d" % k
+    return None
+
+
 def oracle_hypotheses(run):
     """the transcribed formulas used as oracle values, and the hypothesis
     delta_rescale of the rescaling theorem, against the real functions"""
     from dclab.features.emodulus import pxcorr, viscosity
     rng = run.rng
+    luts = [builtin_lut(n) for n in BUILTIN]
+    luts += [gen_user_lut(rng, dyadic=rng.random() < 0.5, nmax=60)
+             for _ in range(100 if run.thorough else 25)]
+    for L in luts:
+        for cw, route in ((L.cw, "array"), (rng.choice([15.0, 30.0, 17.5]),
+                                            "scalar")):
+            why = check_triangulation(L, cw, route)
+            run.count("oracle:hyp-tri")
+            if why:
+                run.broken.append(("oracle-hypothesis(tri)",
+                                   "%s: %s" % (L.name or "user LUT", why)))
     for _ in range(300 if run.thorough else 60):
         feat = rng.choice(["area_um", "volume"])
         px = rng.uniform(0.1, 0.8)
